@@ -211,3 +211,105 @@ def random_store_history(rng, length, sids=None, drop_world=True, clear_ok=True)
     if drop_world:
         g.hist.append((DROPW, []))
     return g.hist
+
+
+def stale_history(rng, sids=None):
+    """C03: produce stale handles (index reused zero, one or many times; reuse merged or not),
+    then drive every handle-taking access path through every handle, dead ones included,
+    reading the current occupant before and after."""
+    g = Gen(rng)
+    pool = sids if sids is not None else list(range(16))
+    for sid in rng.sample(pool, rng.randint(1, min(3, len(pool)))):
+        g.register(sid)
+    n0 = rng.randint(1, 4)
+    for _ in range(n0):
+        g.hist.append((wg.C, g.comps(3)))
+        g.created(1)
+    rounds = rng.randint(1, 4)
+    for _ in range(rounds):
+        # kill some, by a random path
+        for h in list(g.live):
+            if rng.random() < 0.6:
+                path = rng.random()
+                if path < 0.5:
+                    g.hist.append((wg.D, [h]))
+                elif path < 0.8:
+                    g.hist.append((wg.ED, [h]))
+                    if rng.random() < 0.7:
+                        g.hist.append((wg.M, []))
+                else:
+                    g.hist.append((wg.DM, [h]))
+                g.kill(h)
+        if rng.random() < 0.5:
+            g.hist.append((wg.M, []))
+        # reuse the indices: merged (world-level) or unmerged (through the entities resource)
+        for _ in range(rng.randint(1, 3)):
+            k = rng.random()
+            if k < 0.5:
+                g.hist.append((wg.C, g.comps(3)))
+            elif k < 0.8:
+                g.hist.append((wg.EB, [1] + g.comps(3)))
+            else:
+                g.hist.append((wg.EC, []))
+            g.created(1)
+        if rng.random() < 0.4:
+            g.hist.append((wg.M, []))
+    g.hist.append((wg.PROBE, []))
+    # the probe matrix
+    handles = list(range(g.nh))
+    rng.shuffle(handles)
+    for h in handles[:6]:
+        for sid in g.regs:
+            occupant = [(GET, [sid, x]) for x in range(g.nh)]
+            paths = [(GET, [sid, h]), (CONT, [sid, h]), (GETM, [sid, h, 1, 1, 77 if sid != NULL_SID else 0]),
+                     (REM, [sid, h]), (GMD, [sid, h])]
+            u, v = g.tok(sid)
+            paths.append((INS, [sid, h, u, v]))
+            for sub in range(5):
+                u, v = g.tok(sid) if sub in (1, 2) else (0, 5 if sid != NULL_SID else 0)
+                paths.append((ENT, [sid, h, sub, u, v]))
+            rng.shuffle(paths)
+            for p in paths[: rng.randint(3, len(paths))]:
+                g.hist.append(p)
+            g.hist.extend(rng.sample(occupant, min(len(occupant), 3)))
+            g.hist.append((MSK, [sid]))
+    g.hist.append((DROPW, []))
+    return g.hist
+
+
+def map_history(rng, length, sids=None):
+    """C04: storage operations with high remove / re-insert rates, removal from the middle,
+    interleaved entry / drain / clear, slices; few deletions."""
+    g = Gen(rng)
+    pool = sids if sids is not None else list(range(16))
+    for sid in rng.sample(pool, rng.randint(1, min(3, len(pool)))):
+        g.register(sid)
+    n = rng.randint(2, 10)
+    g.hist.append((wg.CI, [n]))
+    g.created(n)
+    if rng.random() < 0.3:
+        # far-apart indices: many entities, most of them deleted again
+        big = rng.choice([70, 130, 300])
+        g.hist.append((wg.CI, [big]))
+        g.created(big)
+        victims = rng.sample(range(n, n + big), big - 4)
+        g.hist.append((wg.DM, victims))
+        for v in victims:
+            g.kill(v)
+    while len(g.hist) < length:
+        r = rng.random()
+        if r < 0.06:
+            g.creation()
+        elif r < 0.10:
+            g.deletion()
+        elif r < 0.13:
+            g.hist.append((wg.M, []))
+        elif r < 0.18:
+            g.event_op()
+        else:
+            g.storage_op()
+    for sid in g.regs:
+        g.hist.append((SLC, [sid]))
+        g.hist.append((MSK, [sid]))
+    g.hist.append((DROPW, []))
+    return g.hist
